@@ -545,7 +545,10 @@ func (builder *builder[E]) addConstraintExist(a, b expr.Term[E], k E) (expr.Term
 				// compute n, the coefficient for the output wire
 				q2, ok = builder.cs.Inverse(q2)
 				if !ok {
-					panic("div by 0") // shouldn't happen
+					// the recorded addition has a zero coefficient on its second
+					// operand (e.g. a sum whose terms cancelled): the ratio
+					// cannot be computed from it, record a new constraint.
+					return expr.Term[E]{}, false
 				}
 				q2 = builder.cs.Mul(q2, q4)
 				return expr.NewTerm(int(c.XC), q2), true
